@@ -267,6 +267,9 @@ func (fc *FnCtx) execInstr(s *State, fn *ssa.Function, in ssa.Instruction) {
 		s.assume(g)
 		arr := fc.allocArray(s)
 		s.regs[x] = sliceVal(arr, mkI(0), ln.T, cp.T, x.Type())
+		if et := fc.eltyTerm(s.regs[x]); et != nil {
+			s.assume(et)
+		}
 	case *ssa.Convert:
 		s.regs[x] = fc.convert(s, x)
 	case *ssa.ChangeType:
